@@ -309,6 +309,8 @@ def execute(case):
     participated = set()
 
     def reaches_graph(name, p):
+        if opts is not None and opts['disable_sampling']:
+            return False       # nothing is sampled; a gradient that still arrives comes through a stale autograd graph
         return name in participated
 
     def check_grads(culprit, tag):
@@ -329,7 +331,8 @@ def execute(case):
                     fail('an architectural parameter of a trainable group received no gradient from loss + cost',
                          'trainable-no-grad', f'{tag}: {n} kind={kind_} requires_grad=True grad=None', culprit)
                     return
-                if want and kind_ != 'net' and bool(p.requires_grad) and g is not None:
+                if want and kind_ != 'net' and bool(p.requires_grad) and g is not None and \
+                        not (opts is not None and opts['disable_sampling']):
                     participated.add(n)
                     bump('trainable_grad_presence_checks')
                 if not want:
